@@ -26,7 +26,7 @@ RULE = ("plans = forest x peer schedules x batching x locks x callbacks x set-sl
         "a waiting subtree) or a delivery of a new header after a lock")
 FAULT_KINDS = ["duplicate", "duplicate_of_locked", "duplicate_in_batch", "child_before_parent",
                "orphan_never_resolved", "reordered_batch", "partition_heal_burst", "fork_below_lock",
-               "empty_batch", "retransmit", "stale_branch_after_lock", "crash_restart", "peer_disconnect_mid_batch"]
+               "empty_batch", "retransmit", "stale_branch_after_lock", "crash_restart", "peer_disconnect_mid_batch", "lock_persist_error"]
 PROBES = ["reorg", "deep_reorg>=3", "tie", "orphan_adopted", "adopt_parent_and_sibling_same_batch",
           "lock", "lock_full_length", "lock_noop", "delivery_after_lock", "callback_delivered",
           "callback_dropped", "two_instances", "slot_collision", "weight_zero_header", "lock_raised", "judged_bookkeeping_only_while_uncertain"]
@@ -193,6 +193,7 @@ def gen_plan(rng, tier, index, config=None):
     p_shuffle_batch = r.pick([0.0, 0.3, 1.0])
     p_restart = r.pick([0.0, 0.0, 0.05, 0.15]) if p_lock > 0 else 0.0
     p_cut = r.pick([0.0, 0.0, 0.1, 0.3])
+    p_persist_fault = r.pick([0.0, 0.0, 0.2]) if p_lock > 0 else 0.0
     sent = []
     bcs = ["bc0"] + (["bc1"] if config == "A2-two-instances" else [])
     steps = []
@@ -261,6 +262,9 @@ def gen_plan(rng, tier, index, config=None):
                 steps.append({"op": "lock", "bc": bc, "back": 0})
             else:
                 steps.append({"op": "lock", "bc": bc, "index": 0})
+            if r.chance(p_persist_fault):
+                # the disk is full when the newly locked entries are handed to did_lock_to_index_f
+                steps[-1]["persist_fault"] = r.pick(["ENOSPC", "EIO"])
         if ncb and r.chance(0.05):
             steps.append({"op": "cb_drop", "cb": "cb%d" % r.below(ncb)})
         if r.chance(0.03):
@@ -305,10 +309,17 @@ class _Inst(object):
         self.waiting_tops = {}
         self.durable = []          # what did_lock_to_index_f handed to the (simulated) disk
         self.persist_calls = 0
+        self.fail_next_persist = None
+        self.persist_faulted = False
         self.uncertain = set()      # labels a failed delivery had consumed and no complete delivery has carried since
 
     def persist(self, items, old_length):
         self.persist_calls += 1
+        if self.fail_next_persist is not None:
+            import errno as _errno
+            e, self.fail_next_persist = self.fail_next_persist, None
+            self.persist_faulted = True
+            raise OSError(getattr(_errno, e), "simulated storage error while persisting locked headers")
         del self.durable[old_length:]
         self.durable.extend(items)
 
@@ -731,8 +742,23 @@ def _lock(ctx, ids, inst, st):
         ctx.probe("lock_noop")
     elif index == n:
         ctx.probe("lock_full_length")
+    storage_fault = False
+    if st.get("persist_fault") and index > before:
+        inst.fail_next_persist = st["persist_fault"]
     try:
-        sut.lock_to_index(index)
+        try:
+            sut.lock_to_index(index)
+        finally:
+            storage_fault = inst.fail_next_persist is None and bool(st.get("persist_fault")) and index > before
+            inst.fail_next_persist = None
+    except OSError as e:
+        if not storage_fault:
+            raise
+        # the store refused the new entries.  Whether the lock then counts in memory is the tracker's choice (the durable
+        # prefix is what a restart sees); what it may not do is end up describing a chain nobody delivered
+        ctx.fault("lock_persist_error")
+        ctx.nontrivial = True
+        ctx.obs("lock-storage-error", st["bc"], index)
     except Exception as e:
         # the statement speaks about deliveries; remember and judge at the next one
         ctx.probe("lock_raised")
@@ -751,7 +777,9 @@ def _lock(ctx, ids, inst, st):
     locked = [ids.label(t[0]) for t in tuples]
     ctx.obs("lock", st["bc"], index, locked[-3:], nl)
     issue = None
-    if nl != max(before, index):
+    if storage_fault and nl == before:
+        pass  # the lock was not applied
+    elif nl != max(before, index):
         issue = {"why": "locked length", "got": nl, "expected": max(before, index)}
     elif locked[: len(model.locked)] != model.locked:
         issue = {"why": "old locked prefix changed"}
@@ -793,6 +821,9 @@ def _restart(ctx, ids, inst, st, anchor_label):
         ctx.violate("C15", "restart-raised", {"exc": type(e).__name__, "msg": str(e)[:200]})
         raise Abort()
     got = [ids.label(t[0]) for t in durable]
+    if inst.persist_faulted and got == model.locked[: len(got)]:
+        # a lock whose entries the store refused never became durable: after the restart it never happened
+        model.locked = list(got)
     if got != model.locked:
         ctx.violate("C15", "durable-locked-prefix-differs", {"durable": got[-4:], "locked": model.locked[-4:],
                                                              "len": [len(got), len(model.locked)]})
